@@ -36,6 +36,16 @@ RULE = ("lists of 1..8 features, start-ordered inside each seqid block, consecut
         "call create_x again -> same yield as the first call and as the model, content dump and SQL trace unchanged; "
         "update_attributes with 1..3 single-valued entries chosen from the keys the neighbours carry (override), keys they do "
         "not carry (addition) and a one-valued ID, merge_attributes on / off, objects and databases; "
+        "Feature objects built by the caller from a plain dict whose single-valued entries are BARE STRINGS "
+        "(Feature(attributes={'ID': 'ex1', 'Parent': 'mRNA1'}); 75% of the single-valued entries; half of the lists share one "
+        "Parent value), or given them by item assignment f.attributes[key] = 'string' (on a plain dict: stays a bare string; on "
+        "attributes parsed from text), 30% with update_attributes holding bare strings - a bare string is ONE value; 'fed "
+        "back' cases: interfeatures(update_attributes={'Parent': 'mRNA1', ...}) over such / ordinary lists, then the yielded "
+        "features fed, as they are, to interfeatures again; GFF3 hierarchies gene -> primary_transcript / mRNA / ncRNA -> exon "
+        "plus transcript -> miRNA / other feature -> exon (1..3 nested features, a fifth of them one level deeper, nested exons "
+        "inside / between / beyond the transcript's own exons, 12% of them naming the transcript as a second Parent), grouped "
+        "by grandparent gene or by parent_featuretype = any non-gene, non-exon type present: the exons of a transcript are the "
+        "exon-typed features whose Parent values name it; "
         "non-trivial = at least one gap and at least one suppressed pair (touching / overlapping / seqid change) in the "
         "list or in one transcript; distinct = distinct (records, options) tuples")
 REQUIRED = ["interfeatures calls", "gap features compared", "suppressed pairs: touching", "suppressed pairs: overlapping",
@@ -74,14 +84,35 @@ REQUIRED = ["interfeatures calls", "gap features compared", "suppressed pairs: t
             "update_attributes: single-valued key added that neither neighbour carries",
             "update_attributes: single-valued ID replacing the joined ID of the neighbours",
             "update_attributes: single-valued key overriding a key both neighbours carry (features read from a database)",
-            "update_attributes: single-valued key added that neither neighbour carries (features read from a database)"]
+            "update_attributes: single-valued key added that neither neighbour carries (features read from a database)",
+            "bare strings: gap features compared with a bare-string neighbour",
+            "bare strings: neighbour built with Feature(attributes={key: 'string'})",
+            "bare strings: neighbour given f.attributes[key] = 'string' on a plain dict",
+            "bare strings: two bare-string IDs joined by '-'",
+            "bare strings: unions compared of two equal bare strings under one key",
+            "bare strings: unions compared of two different bare strings under one key",
+            "bare strings: unions compared of a bare string and a value list under one key",
+            "bare strings: unions compared of a bare string under a key the other neighbour does not carry",
+            "item assignment f.attributes[key] = 'string' on attributes parsed from text: unions compared",
+            "input attribute mappings compared before / after (values and bare / list form)",
+            "fed back: first-stage features compared (update_attributes holding bare strings)",
+            "fed back: interfeatures calls on the features an earlier call yielded",
+            "fed back: unions compared of two equal bare strings under one key"] + \
+           ["nested: %s compared where pooling the deeper exons with the transcript's own would give other features (%s mode)"
+            % (w, m) for w in ("introns", "splice sites") for m in ("grandparent", "parent_featuretype")] + \
+           ["nested: transcripts compared that have exon-typed descendants below level 1 (%s mode)" % m
+            for m in ("grandparent", "parent_featuretype")] + \
+           ["nested: the nested features themselves taken as transcripts (parent_featuretype mode), own exons compared"]
 REQUIRED_CLASSES = ["list/objects", "list/db gff3", "list/db gtf", "introns/gff3", "introns/gtf", "splice/gff3", "splice/gtf",
                     "list/objects equal attributes", "list/db gff3 equal attributes", "list/db gtf equal attributes",
                     "list/objects update_attributes", "list/db update_attributes",
                     "splice/gff3 transcripts of different strands", "splice/gtf transcripts of different strands",
                     "introns/gff3 transcripts of different strands", "introns/gtf transcripts of different strands",
                     "introns/gff3 on a database holding derived features", "introns/gtf on a database holding derived features",
-                    "splice/gff3 on a database holding derived features", "splice/gtf on a database holding derived features"]
+                    "splice/gff3 on a database holding derived features", "splice/gtf on a database holding derived features",
+                    "list/objects bare strings (plain dict)", "list/objects bare strings (item assignment on parsed text)",
+                    "list/objects fed back from an earlier call", "introns/gff3 exons nested below a transcript's exons",
+                    "splice/gff3 exons nested below a transcript's exons"]
 ASSUMPTIONS = [
     "'at least one base between them' = next.start - previous.end >= 2; lists are start-ordered inside a block of one seqid "
     "(the statement speaks of features given in order), exon starts are distinct inside a transcript",
@@ -97,6 +128,14 @@ ASSUMPTIONS = [
     "derived features are stored with update(..., merge_strategy='create_unique') (GTF: gene / transcript inference off); "
     "update() itself is not judged here: a case in which it raises or stores another number of features is skipped and counted; "
     "stored derived features are of a type other than the exon featuretype, so the statement's gaps do not depend on them",
+    "an attribute entry the caller wrote as a bare string (plain-dict attributes, item assignment, update_attributes) is ONE "
+    "value of that key; the yielded feature's entries are read the same way (a bare string = one value).  Not generated, hence "
+    "not judged: update_attributes whose ID entry is a bare string of several characters - the unchanged tree yields "
+    "ID=['n-e-w-i-d'] for update_attributes={'ID': 'newid'} (merge_attributes on or off); one-element lists are used for ID",
+    "'the exons of each transcript' = the features of the exon featuretype whose Parent values name the transcript (level-1 "
+    "children); exon-typed features further down (exons of a miRNA under a primary_transcript) belong to the nested feature, "
+    "which is a transcript itself only when parent_featuretype names its type; the transcripts are the features whose Parent "
+    "names a feature of the grandparent type (grandparent mode) or the features of parent_featuretype",
 ]
 QUICK_SHARDS = 4
 THOROUGH_SHARDS = 16
@@ -120,8 +159,38 @@ def scratch_db():
 
 
 def to_model(rec):
+    """The model feature of a record; an attrs entry written as a bare string is ONE value, and an item assignment
+    ("assign": [[key, "value"], ...]) makes that one value the values of the key."""
+    attrs = {k: M.values_of(v) for k, v in rec["attrs"]}
+    for k, v in rec.get("assign", ()):
+        attrs[k] = M.values_of(v)
     return {"seqid": rec["seqid"], "start": rec["start"], "end": rec["end"], "strand": rec["strand"],
-            "featuretype": rec["featuretype"], "attrs": {k: list(v) for k, v in rec["attrs"]}}
+            "featuretype": rec["featuretype"], "attrs": attrs}
+
+
+def build_feature(rec, i, build=None):
+    """The Feature object the CALLER makes from a record: attributes as a plain dict (bare strings stay bare strings) or,
+    build == "string", as attribute text; then the record's item assignments f.attributes[key] = "value"."""
+    import gffutils
+
+    if build == "string":
+        attributes = G.render_attrs(rec["attrs"], "gff3")
+    else:
+        attributes = {k: (v if isinstance(v, str) else list(v)) for k, v in rec["attrs"]}
+    f = gffutils.Feature(seqid=rec["seqid"], source="src", featuretype=rec["featuretype"], start=rec["start"], end=rec["end"],
+                         strand=rec["strand"], attributes=attributes, id="in%d" % i)
+    for k, v in rec.get("assign", ()):
+        f.attributes[k] = v
+    return f
+
+
+def raw_attrs(f):
+    """The attribute mapping of a Feature as it is held (bare strings and lists told apart), JSON-able."""
+    a = f.attributes
+    d = a if type(a) is dict else getattr(a, "_d", None)
+    if d is None:
+        d = {k: a[k] for k in a.keys()}
+    return {k: (v if isinstance(v, str) else list(v)) for k, v in d.items()}
 
 
 def attrs_of(f):
@@ -235,6 +304,8 @@ def execute(ctx, case):
     try:
         if kind == "list":
             return execute_list(ctx, case)
+        if kind == "fedback":
+            return execute_fedback(ctx, case)
         if kind == "derived":
             return execute_derived(ctx, case)
         return execute_model(ctx, case)
@@ -255,10 +326,11 @@ def execute_list(ctx, case):
     try:
         if source == "objects":
             db = scratch_db()
-            feats = [gffutils.Feature(seqid=r["seqid"], source="src", featuretype=r["featuretype"], start=r["start"],
-                                      end=r["end"], strand=r["strand"], attributes={k: list(v) for k, v in r["attrs"]},
-                                      id="in%d" % i) for i, r in enumerate(recs)]
+            feats = [build_feature(r, i, case.get("build")) for i, r in enumerate(recs)]
             model_in = [to_model(r) for r in recs]
+            if [attrs_of(f) for f in feats] != [m["attrs"] for m in model_in]:
+                ctx.violation(case, {"why": "harness: a Feature object does not carry the values of its record"})
+                return info
         else:
             kw = {"id_spec": "ID"}
             if source == "gtf":
@@ -297,8 +369,10 @@ def execute_list(ctx, case):
                                  numeric_sort=opts["numeric_sort"], update_attributes=opts["update_attributes"])
         info = {"gaps": len(exp), "suppressed": sum(suppressed.values())}
         real_attrs = [attrs_of(f) for f in feats]    # what the real neighbours carry (evidence counters only)
+        held = [raw_attrs(f) for f in feats] if source == "objects" else None
         w = Watch(ctx, db, feats)
-        upd = None if opts["update_attributes"] is None else {k: list(v) for k, v in opts["update_attributes"].items()}
+        upd = None if opts["update_attributes"] is None else {k: (v if isinstance(v, str) else list(v))
+                                                              for k, v in opts["update_attributes"].items()}
         try:
             out = list(db.interfeatures(iter(feats), new_featuretype=opts["new_featuretype"],
                                         merge_attributes=opts["merge_attributes"], numeric_sort=opts["numeric_sort"],
@@ -322,9 +396,16 @@ def execute_list(ctx, case):
             count_attr_evidence(ctx, g, model_in, opts)
             count_pair_evidence(ctx, g, real_attrs, opts, from_db=source != "objects")
             count_update_evidence(ctx, g, real_attrs, opts, from_db=source != "objects")
+            if held is not None:
+                count_bare_evidence(ctx, g, held, recs, case.get("build"))
         bad = w.finish()
         if bad:
             ctx.violation(case, dict(bad[1], why="interfeatures: " + bad[0]))
+        if held is not None:
+            ctx.mon("input attribute mappings compared before / after (values and bare / list form)", len(held))
+            if [raw_attrs(f) for f in feats] != held:
+                ctx.violation(case, {"why": "interfeatures: the attribute mapping of an input feature was changed by the call",
+                                     "before": held[:4], "after": [raw_attrs(f) for f in feats][:4]})
         if upd is not None and upd != opts["update_attributes"]:
             ctx.violation(case, {"why": "interfeatures: the update_attributes argument was changed by the call"})
     finally:
@@ -405,6 +486,132 @@ def count_update_evidence(ctx, g, attrs, opts, from_db=False):
             ctx.mon("update_attributes: single-valued key added that neither neighbour carries" + how)
             if from_db:
                 ctx.mon("update_attributes: single-valued key added that neither neighbour carries (features read from a database)" + how)
+
+
+def count_bare_evidence(ctx, g, held, recs=None, build=None, what="bare strings"):
+    """Which bare-string situations the compared union covered; held[i] = attribute mapping of neighbour i as it is held
+    (bare strings and lists told apart).  Counted only for values of >= 2 characters (one value != its characters)."""
+    if g.get("attrs") is None:
+        return
+    i, j = g["pair"]
+    a, b = held[i], held[j]
+    seen = False
+    for k in set(a) | set(b):
+        x, y = a.get(k), b.get(k)
+        bx, by = isinstance(x, str) and len(x) >= 2, isinstance(y, str) and len(y) >= 2
+        if not (bx or by):
+            continue
+        seen = True
+        if isinstance(x, str) and isinstance(y, str):
+            ctx.mon("%s: unions compared of two %s bare strings under one key" % (what, "equal" if x == y else "different"))
+            if k == "ID" and x != y:
+                ctx.mon("%s: two bare-string IDs joined by '-'" % what)
+        elif x is None or y is None:
+            ctx.mon("%s: unions compared of a bare string under a key the other neighbour does not carry" % what)
+        else:
+            ctx.mon("%s: unions compared of a bare string and a value list under one key" % what)
+    if seen:
+        ctx.mon("%s: gap features compared with a bare-string neighbour" % what)
+        if recs is not None:
+            for r in (recs[i], recs[j]):
+                if any(isinstance(v, str) and len(v) >= 2 for _, v in r["attrs"]):
+                    ctx.mon("bare strings: neighbour built with Feature(attributes={key: 'string'})")
+                if build != "string" and any(len(v) >= 2 for _, v in r.get("assign", ())):
+                    ctx.mon("bare strings: neighbour given f.attributes[key] = 'string' on a plain dict")
+    if recs is not None and build == "string" and any(r.get("assign") for r in (recs[i], recs[j])):
+        ctx.mon("item assignment f.attributes[key] = 'string' on attributes parsed from text: unions compared")
+
+
+def compare_outputs(ctx, case, out, exp, label):
+    """The yielded features against the expected gaps, one by one; False after a violation."""
+    shown = {"got": [short(f) for f in out][:10], "expected": exp[:10]}
+    if len(out) != len(exp):
+        ctx.violation(case, dict(shown, why="%s yielded %s features than the pairs with a gap" % (
+            label, "more" if len(out) > len(exp) else "fewer"), n_got=len(out), n_expected=len(exp)))
+        return False
+    for i, (f, g) in enumerate(zip(out, exp)):
+        ctx.mon("gap features compared")
+        why = compare_gap(f, g)
+        if why:
+            ctx.violation(case, {"why": "%s: %s" % (label, why), "index": i, "got": short(f), "expected": g})
+            return False
+    return True
+
+
+def execute_fedback(ctx, case):
+    """kind "fedback": {"feats", "build", "opts1", "opts"}.  Stage 1: interfeatures over the list with merge_attributes on
+    and update_attributes opts1["update_attributes"] whose values are BARE STRINGS; stage 2: the features stage 1 yielded
+    are fed, as they are and in the order yielded, to interfeatures again under opts.  Both stages are judged against the
+    pairwise model (stage 2: applied to the model's own stage-1 gaps)."""
+    recs, o1, o2 = case["feats"], case["opts1"], case["opts"]
+    info = {"gaps": 0, "suppressed": 0, "bare": 0}
+    db = scratch_db()
+    feats = [build_feature(r, i, case.get("build")) for i, r in enumerate(recs)]
+    model_in = [to_model(r) for r in recs]
+    if [attrs_of(f) for f in feats] != [m["attrs"] for m in model_in]:
+        ctx.violation(case, {"why": "harness: a Feature object does not carry the values of its record"})
+        return info
+
+    def copy_upd(u):
+        return None if u is None else {k: (v if isinstance(v, str) else list(v)) for k, v in u.items()}
+
+    exp1, sup1 = M.gaps(model_in, new_featuretype=o1["new_featuretype"], merge_attributes=True,
+                        numeric_sort=o1["numeric_sort"], update_attributes=o1["update_attributes"])
+    w = Watch(ctx, db, feats)
+    upd1 = copy_upd(o1["update_attributes"])
+    try:
+        out1 = list(db.interfeatures(iter(feats), new_featuretype=o1["new_featuretype"], merge_attributes=True,
+                                     numeric_sort=o1["numeric_sort"], update_attributes=upd1))
+    except Exception as ex:
+        ctx.violation(case, {"why": "interfeatures raised %s (first stage, bare-string update_attributes)" % type(ex).__name__,
+                             "error": repr(ex)})
+        return info
+    ctx.mon("interfeatures calls")
+    count_expectations(ctx, exp1, sup1)
+    if not compare_outputs(ctx, case, out1, exp1, "interfeatures (first stage, bare-string update_attributes)"):
+        return info
+    ctx.mon("fed back: first-stage features compared (update_attributes holding bare strings)", len(out1))
+    bad = w.finish()
+    if bad:
+        ctx.violation(case, dict(bad[1], why="interfeatures (first stage): " + bad[0]))
+        return info
+    if upd1 != o1["update_attributes"]:
+        ctx.violation(case, {"why": "interfeatures: the update_attributes argument was changed by the call"})
+        return info
+    # stage 2
+    model2 = [{"seqid": g["seqid"], "start": g["start"], "end": g["end"], "strand": g["strand"],
+               "featuretype": g["featuretype"], "attrs": g["attrs"]} for g in exp1]
+    exp2, sup2 = M.gaps(model2, new_featuretype=o2["new_featuretype"], merge_attributes=o2["merge_attributes"],
+                        numeric_sort=o2["numeric_sort"], update_attributes=o2["update_attributes"])
+    info = {"gaps": len(exp2), "suppressed": sum(sup2.values()), "bare": 0}
+    held = [raw_attrs(f) for f in out1]
+    w = Watch(ctx, db, out1)
+    upd2 = copy_upd(o2["update_attributes"])
+    try:
+        out2 = list(db.interfeatures(iter(out1), new_featuretype=o2["new_featuretype"], merge_attributes=o2["merge_attributes"],
+                                     numeric_sort=o2["numeric_sort"], update_attributes=upd2))
+    except Exception as ex:
+        ctx.violation(case, {"why": "interfeatures raised %s (second stage: the features of an earlier call fed back in)"
+                                    % type(ex).__name__, "error": repr(ex)})
+        return info
+    ctx.mon("interfeatures calls")
+    ctx.mon("fed back: interfeatures calls on the features an earlier call yielded")
+    count_expectations(ctx, exp2, sup2)
+    if not compare_outputs(ctx, case, out2, exp2, "interfeatures (second stage: the features of an earlier call fed back in)"):
+        return info
+    for g in exp2:
+        count_attr_evidence(ctx, g, model2, o2)
+        count_bare_evidence(ctx, g, held, what="fed back")
+        if g.get("attrs") is not None:
+            a, b = held[g["pair"][0]], held[g["pair"][1]]
+            if any(isinstance(a.get(k), str) and isinstance(b.get(k), str) and len(a[k]) >= 2 for k in a):
+                info["bare"] += 1
+    bad = w.finish()
+    if bad:
+        ctx.violation(case, dict(bad[1], why="interfeatures (second stage): " + bad[0]))
+    elif [raw_attrs(f) for f in out1] != held:
+        ctx.violation(case, {"why": "interfeatures (second stage): the attribute mapping of an input feature was changed by the call"})
+    return info
 
 
 def short(f):
@@ -589,9 +796,67 @@ def execute_model(ctx, case):
         out = run_and_compare(ctx, case, db, call, opts, expected, expected_introns, text)
         if out is not None:
             count_visit_evidence(ctx, call, out, txs, fmt, info)
+            if case.get("nested"):
+                info["deep"] = count_nested_evidence(ctx, recs, opts, call, txs, expected)
     finally:
         close_db(db, dbfn)
     return info
+
+
+def deeper_exons(recs, tid, ex_type):
+    """Records of the exon featuretype that descend from tid through Parent values ONLY at depth >= 2 (exons of nested
+    features), in file order."""
+    kids = {}
+    for r in recs:
+        for p in dict((k, v) for k, v in r["attrs"]).get("Parent", []):
+            kids.setdefault(p, []).append(r)
+    level1 = [id(r) for r in kids.get(tid, [])]
+    seen, deep, todo = set(level1), [], [r for r in kids.get(tid, [])]
+    while todo:
+        r = todo.pop(0)
+        for c in kids.get(r_id(r), []):
+            if id(c) not in seen:
+                seen.add(id(c))
+                todo.append(c)
+                if c["featuretype"] == ex_type:
+                    deep.append(c)
+    return deep
+
+
+def count_nested_evidence(ctx, recs, opts, call, txs, expected):
+    """Evidence counters of the nested-hierarchy class (the comparison itself has been made): transcripts with exon-typed
+    descendants below their own exons, and whether counting those among the transcript's exons would give other features."""
+    what = "introns" if call == "introns" else "splice sites"
+    mode = "grandparent" if opts["by"] == "grandparent" else "parent_featuretype"
+    pooled, ndeep = [], 0
+    for tid, tstrand, exons in txs:
+        deep = deeper_exons(recs, tid, opts["exon_featuretype"])
+        if deep:
+            ndeep += 1
+            ctx.mon("nested: transcripts compared that have exon-typed descendants below level 1 (%s mode)" % mode)
+            if not exons:
+                ctx.mon("nested: such transcripts without an exon of their own")
+        ex_model = [to_model(e) for e in exons + deep]
+        if call == "introns":
+            exp, _ = M.introns(ex_model, new_featuretype=opts["new_featuretype"], merge_attributes=False)
+        else:
+            exp, _ = M.splice_sites(ex_model, tstrand)
+        pooled.extend(exp)
+    if ndeep:
+        ctx.mon("nested: create_%s calls compared on such a hierarchy (%s mode)" % (what.replace(" ", "_"), mode))
+        a = Counter(canon(g, False) for g in expected)
+        b = Counter(canon(g, False) for g in pooled)
+        if a != b:
+            ctx.mon("nested: %s compared where pooling the deeper exons with the transcript's own would give other features (%s mode)"
+                    % (what, mode))
+            if len(expected) < len(pooled) and not (a - b):
+                ctx.mon("nested: ... would only add features (the own exons' gaps stay, e.g. a single-exon transcript)")
+    genes = set(r_id(x) for x in recs if x["featuretype"] == "gene")
+    by_id = {r_id(r): r for r in recs}
+    if opts["by"] == "parent" and any(exons and any(p not in genes for p in dict((k, v) for k, v in by_id[tid]["attrs"]).get("Parent", []))
+                                      for tid, _, exons in txs):
+        ctx.mon("nested: the nested features themselves taken as transcripts (parent_featuretype mode), own exons compared")
+    return ndeep
 
 
 def neither(strand):
@@ -806,6 +1071,39 @@ def run(ctx):
         info = execute(ctx, case)
         ctx.case((call, fmt, case["recs"], case["opts"], case["store"]), info.get("stored", 0) >= 1,
                  cls="%s/%s on a database holding derived features" % (call, fmt))
+    # neighbours built by the caller with plain dicts holding BARE STRINGS / item assignment of a string
+    for _ in range(ctx.budget(2400, 60000)):
+        feats, build = G.bare_list(rng)
+        opts = G.list_options(rng)
+        opts["merge_attributes"] = rng.random() < 0.9
+        if rng.random() < 0.3:
+            opts["update_attributes"] = G.bare_update(rng)
+        case = {"kind": "list", "source": "objects", "feats": feats, "opts": opts, "build": build}
+        info = execute(ctx, case)
+        ctx.case((build, case["feats"], case["opts"]), info["gaps"] >= 1, sample=case if len(feats) == 2 else None,
+                 cls="list/objects bare strings (%s)" % ("plain dict" if build == "dict" else "item assignment on parsed text"))
+    # the features an earlier interfeatures(update_attributes={key: 'string'}) yielded, fed back in
+    for _ in range(ctx.budget(800, 24000)):
+        feats, build = G.bare_list(rng) if rng.random() < 0.5 else (G.feature_list(rng), "dict")
+        o1 = {"new_featuretype": rng.choice([None, "intron", "intron"]), "numeric_sort": rng.random() < 0.5,
+              "update_attributes": G.bare_update(rng)}
+        opts = G.list_options(rng)
+        opts["merge_attributes"] = rng.random() < 0.9
+        if rng.random() < 0.2:
+            opts["update_attributes"] = G.bare_update(rng)
+        case = {"kind": "fedback", "feats": feats, "build": build, "opts1": o1, "opts": opts}
+        info = execute(ctx, case)
+        ctx.case((build, case["feats"], o1, opts), info["gaps"] >= 1 and info.get("bare", 0) >= 1,
+                 sample=case if len(feats) == 3 else None, cls="list/objects fed back from an earlier call")
+    # transcripts with exon-typed descendants below their own exons (gene -> primary_transcript -> exon, -> miRNA -> exon)
+    for _ in range(ctx.budget(1000, 30000)):
+        call = rng.choice(["introns", "splice"])
+        recs = G.nested_model(rng)
+        case = {"kind": call, "fmt": "gff3", "recs": recs, "opts": G.nested_options(rng, recs, call), "nested": True,
+                "dbfile": rng.random() < 0.1}
+        info = execute(ctx, case)
+        ctx.case((call, case["recs"], case["opts"]), info.get("deep", 0) >= 1 and info["gaps"] >= 1,
+                 sample=case if len(recs) <= 7 else None, cls="%s/gff3 exons nested below a transcript's exons" % call)
     ctx.mon("bins.bins contract evaluations", contracts.EVALS["bins.bins"])
 
 
@@ -825,7 +1123,12 @@ MANIFEST = {
             "databases whose transcripts have different strands (+, -, ., ?) in every order within one call (each transcript's "
             "sites labelled from its own strand), databases that already hold the derived introns / splice sites (stored with "
             "update(), reopened; the second call must yield what the first did and leave the content dump unchanged), and "
-            "update_attributes with single-valued overriding / added keys and a one-valued ID. "
+            "update_attributes with single-valued overriding / added keys and a one-valued ID; neighbours the caller built "
+            "from plain dicts holding bare strings or changed by item assignment of a string, and the features of an earlier "
+            "interfeatures(update_attributes={key: 'string'}) call fed back in (a bare string is one whole value in the union and "
+            "in the joined ID; the inputs' attribute mappings keep values and form); GFF3 hierarchies in which transcripts have "
+            "exon-typed descendants below their own exons (primary_transcript -> exon and -> miRNA -> exon), in grandparent and "
+            "parent_featuretype mode: only the exons whose Parent names the transcript are its exons. "
             "The inputs' printed form, an "
             "independent sqlite3 dump of the database and the SQL trace are compared before and after each call. "
             "Held = no executed case disagreed.",
